@@ -349,7 +349,13 @@ def execute(plan):
             det = shared["det"]
         else:
             det = make_det()
-        return det.expose(image.copy(), frames=d["frames"])
+        # the caller's own array is handed over (no defensive copy), as user code does
+        held = image.copy()
+        out = det.expose(image, frames=d["frames"])
+        if not (image.shape == held.shape and image.dtype == held.dtype and np.array_equal(image, held)):
+            viol("input-mutated", "expose", what="the aerial image passed to expose() was modified in place")
+            image[...] = held
+        return out
 
     def check_frame(dn, image, stage):
         """range, dtype, shape; exactness when the noise is off."""
@@ -580,7 +586,11 @@ def _block_reduce(np, x, fac, how):
 def _bin_tile(np, D, x, fac, mode, g, viol, bump, probes):
     facs = [fac] * x.ndim if isinstance(fac, int) else list(fac)
     try:
-        b = np.asarray(D.bindown(x.copy(), fac if isinstance(fac, int) else list(fac), mode=mode))
+        x0 = np.array(x, copy=True, order="K")
+        b = np.asarray(D.bindown(x, fac if isinstance(fac, int) else list(fac), mode=mode))
+        if not np.array_equal(x, x0):
+            viol("input-mutated", "bindown", what="the array passed to bindown was modified in place")
+            return
     except Exception as e:
         viol("raised", "bindown", exc=type(e).__name__, msg=str(e)[:120])
         return
@@ -614,8 +624,8 @@ def _bin_tile(np, D, x, fac, mode, g, viol, bump, probes):
             viol("tile-" + scaling, "tile", note="not constant within a block")
             return
     # adjointness: <bin_sum x, y> = <x, tile_avg y>, <bin_avg x, y> = <x, tile_sum y>
-    bs = np.asarray(D.bindown(x.copy(), fac if isinstance(fac, int) else list(fac), mode="sum"))
-    ba = np.asarray(D.bindown(x.copy(), fac if isinstance(fac, int) else list(fac), mode="avg"))
+    bs = np.asarray(D.bindown(x, fac if isinstance(fac, int) else list(fac), mode="sum"))
+    ba = np.asarray(D.bindown(x, fac if isinstance(fac, int) else list(fac), mode="avg"))
     ta = np.asarray(D.tile(y.copy(), fac if isinstance(fac, int) else list(fac), scaling="avg"))
     ts = np.asarray(D.tile(y.copy(), fac if isinstance(fac, int) else list(fac), scaling="sum"))
     xf = np.asarray(x).astype(np.float64)
